@@ -911,11 +911,11 @@ def run(h):
         if mine:
             h.case('versions', {'versions': mine}, cpu=600)
     else:
-        h.case('versions', {'versions': ['16.0.0', '13.0.0', '14.0.0']}, cpu=120)
+        h.case('versions', {'versions': ['16.0.0', '13.0.0', '12.1.0', '5.0.0']}, cpu=300)
     r = h.rng
-    for _ in range(h.n(1000)):
+    for _ in range(h.n(800)):
         h.case('subset_history', g_subset_history(r))
-    for _ in range(h.n(250)):
+    for _ in range(h.n(180)):
         h.case('cclass_history', g_cc_history(r))
 
 
